@@ -55,20 +55,23 @@ def decorate(rng, m):
                 r = rng.random()
                 if r < 0.12:
                     f["dirs"] = ["deprecated"]
-                elif r < 0.22:
+                elif r < 0.2:
                     f["dirs"] = ['deprecated(reason: "use %s2")' % f["name"]]
+                elif r < 0.24:
+                    f["dirs"] = [rng.choice(['deprecated(reason: "")', 'deprecated(reason: null)'])]
                 elif r < 0.3 and len(t["fields"]) > 1:
                     f["dirs"] = ["nonIntrospectable"]
         if t["kind"] == "ENUM":
             t["value_dirs"] = {}
             for v in t["values"]:
                 if rng.random() < 0.25:
-                    t["value_dirs"][v] = [rng.choice(["deprecated", 'deprecated(reason: "gone")'])]
+                    t["value_dirs"][v] = [rng.choice(["deprecated", 'deprecated(reason: "gone")', 'deprecated(reason: "")',
+                                                      'deprecated(reason: null)'])]
     for e in m["exts"]:
         if e.get("kind") == "OBJECT":
             for f in e.get("fields", []):
                 if rng.random() < 0.3:
-                    f["dirs"] = ["deprecated"]
+                    f["dirs"] = [rng.choice(["deprecated", 'deprecated(reason: "")', 'deprecated(reason: null)'])]
     if rng.random() < 0.5:
         m["exts"].insert(rng.randrange(len(m["exts"]) + 1), {"schema_ops": {}, "dirs": ["tsd2"]})
     # an object declared textually before the interface it implements
@@ -186,16 +189,21 @@ def python_checks(m, sc, by_name_results):
     """engine-only consistency clauses of the property"""
     P = []
     reasons = {}
+
+    def reason_of(d):
+        if "reason: null" in d:
+            return None
+        return d.split('"')[1] if '"' in d else "No longer supported"
     for holder in list(m["types"]) + [e for e in m["exts"] if "target" in e]:
         tn = holder.get("target") or holder["name"]
         for f in holder.get("fields", []) or []:
             for d in f.get("dirs", []) or []:
                 if d.startswith("deprecated"):
-                    reasons[(tn, f["name"])] = d.split('"')[1] if '"' in d else "No longer supported"
+                    reasons[(tn, f["name"])] = reason_of(d)
         for v, ds in (holder.get("value_dirs") or {}).items():
             for d in ds:
                 if d.startswith("deprecated"):
-                    reasons[(tn, v)] = d.split('"')[1] if '"' in d else "No longer supported"
+                    reasons[(tn, v)] = reason_of(d)
     for t in sc["types"]:
         for key, nodep in (("fields", "fieldsNoDep"), ("enumValues", "enumNoDep")):
             if t.get(key) is not None:
@@ -204,8 +212,9 @@ def python_checks(m, sc, by_name_results):
                 if exp != got:
                     P.append("%s.%s(includeDeprecated: false) is %r, the non-deprecated entries are %r" % (t["name"], key, got, exp))
                 for f in t[key]:
+                    declared = (t["name"], f["name"]) in reasons
                     want = reasons.get((t["name"], f["name"]))
-                    if bool(f["isDeprecated"]) != (want is not None) or (want is not None and f.get("deprecationReason") != want):
+                    if bool(f["isDeprecated"]) != declared or (declared and f.get("deprecationReason") != want):
                         P.append("%s.%s: isDeprecated=%r reason=%r, declared %r" % (t["name"], f["name"], f["isDeprecated"],
                                                                                    f.get("deprecationReason"), want))
         if t.get("fields") is not None and [f["name"] for f in (t.get("fieldsNoDep") or [])] != [f["name"] for f in (t.get("shortFields") or [])]:
